@@ -45,4 +45,70 @@ theorem C10_child (akai : Bool) (name : Name) (kids : List Node) (k : Nat) (c : 
       simp [this]
   simp only [lookupIdx, Node.isDir, Node.children, if_true, hfind, hk]
 
+/-! ## any depth -/
+
+/-- the printed names of the nodes along an index path (every node that is entered is a directory). -/
+def walk : Node → List Nat → Option (List Name)
+  | _, [] => some []
+  | n, k :: ks =>
+    if n.isDir then
+      match n.children[k]? with
+      | some c => (walk c ks).map (c.name :: ·)
+      | none => none
+    else none
+
+/-- along the path, no earlier sibling has the same normalised name as the node taken. -/
+def DistinctAlong (akai : Bool) : Node → List Nat → Prop
+  | _, [] => True
+  | n, k :: ks =>
+    match n.children[k]? with
+    | some c =>
+      (∀ j d, j < k → n.children[j]? = some d → sanitizeToken akai d.name ≠ sanitizeToken akai c.name) ∧
+      DistinctAlong akai c ks
+    | none => True
+
+/-- **Round trip at any depth.** Take any node of the tree, at index path `idx`, and the names `ls`
+shows for the nodes on the way to it. If at every level no earlier sibling has the same normalised
+name (which the sibling de-duplication provides), the path made of those names addresses exactly
+that node. -/
+theorem C10_roundtrip (akai : Bool) :
+    ∀ (idx : List Nat) (n : Node) (names all : List Name) (i : Nat) (acc : List Nat),
+      walk n idx = some names → DistinctAlong akai n idx →
+      lookupIdx akai n names all i acc = .ok (acc.reverse ++ idx) := by
+  intro idx
+  induction idx with
+  | nil =>
+    intro n names all i acc hw _
+    simp only [walk, Option.some.injEq] at hw
+    subst hw
+    simp [lookupIdx]
+  | cons k ks ih =>
+    intro n names all i acc hw hd
+    obtain ⟨nm, dir, kids⟩ := n
+    simp only [walk, Node.isDir, Node.children] at hw
+    by_cases hdir : dir = true
+    · subst hdir
+      simp only [if_true] at hw
+      cases hk : kids[k]? with
+      | none => simp [hk] at hw
+      | some c =>
+        simp only [hk] at hw
+        cases hwc : walk c ks with
+        | none => simp [hwc] at hw
+        | some rest =>
+          simp only [hwc, Option.map_some, Option.some.injEq] at hw
+          subst hw
+          simp only [DistinctAlong, Node.children, hk] at hd
+          rw [C10_child akai nm kids k c hk hd.1 rest all i acc]
+          rw [ih c rest all (i + 1) (k :: acc) hwc hd.2]
+          simp
+    · simp [hdir] at hw
+
+/-- premises satisfiable: a two-level tree with a duplicate-looking sibling before the target. -/
+example :
+    (match lookupIdx false (.node "img".toList true [.node "A".toList true [.node "x".toList false [], .node "y".toList false []]])
+      ["A".toList, "y".toList] ["A".toList, "y".toList] 0 [] with
+     | .ok idx => idx == [0, 1]
+     | .error _ => false) = true := by decide
+
 end Smpl.Props.C10
